@@ -191,6 +191,11 @@ def explore_lines(prop, cfg, tier, seed, work, result, T):
     n = T['evaluate'](cases, os.path.join(work, 'all.out'))
     result['evaluations'] = n
     res = T['read_results'](os.path.join(work, 'all.out'))
+    # every case must come back from the evaluator: a case without a verdict is a broken check, never a pass
+    for l in open(cases):
+        cid = l.split(' ', 2)[1]
+        if cid not in res:
+            result['bad'].append(cid)
     wanted = {}
     gz_ids = set()
     trivial = set(cfg.get('trivial_tags', []))
